@@ -81,7 +81,18 @@ class HashFamily:
                 for L in (0, 1, 31, 32, 33, 64, b, b + 1, 2 * b - 1, 255 * b, 255 * b + 1, 254 * b + 1, 65535, 65536):
                     for dl in ((0, 1, 255, 256) if L in (32, 33, 255 * b) else (rng.choice([0, 16, 43, 254]),)):
                         yield dict(kind="xmd", h=h, msg=rb(rng.choice([0, 1, 55, 56, 64, 65, 200])).hex(), dst=rb(dl).hex(), L=L)
+        if name in ("expand_message_xmd", "xor", "i2osp") or "xmd" in name:
+            # long messages (the message length is unbounded: only the OUTPUT length is limited), blocks with leading zero bytes
+            for n in (65535, 65536, 70001):
+                yield dict(kind="xmd", h="sha256", msg=rb(n).hex(), dst=rb(20).hex(), L=96)
+            for i in range(60):
+                yield dict(kind="xmd", h=rng.choice(["sha256", "sha512", "sha1"]), msg=(b"message-%04d" % i).hex(), dst=rb(rng.choice([5, 43])).hex(),
+                           L=rng.choice([96, 256, 700]))
         if "hash_to_field" in name:
+            # both field variants with identical arguments in one process, in both orders (shared-cache history dependence)
+            m_, d_ = rb(12).hex(), rb(17).hex()
+            for order in ([True, False, True], [False, True, False]):
+                yield dict(kind="htf_pair", msg=m_, dst=d_, count=2, h="sha256", order=order)
             for count in (0, 1, 2, 3, 4, 8):
                 for h in ("sha256", "sha512"):
                     yield dict(kind="htf", fq2=name.endswith("FQ2"), count=count, h=h, msg=rb(rng.choice([0, 3, 70])).hex(),
@@ -138,12 +149,17 @@ class HashFamily:
                 return dict(why=f"expand_message_xmd({inp['h']}, L={inp['L']}, |DST|={len(bx(inp['dst']))}) differs from RFC 9380 5.3.1",
                             observed=(got[1].hex()[:64] + f"...[{len(got[1])} bytes]") if got[0] == "ret" else str(got),
                             expected=(want[1].hex()[:64] + f"...[{len(want[1])} bytes]") if want[0] == "ret" else str(want))
-        elif k in ("htf", "htf_seq"):
+        elif k in ("htf", "htf_seq", "htf_pair"):
             import py_ecc.bls.hash_to_curve as H2
-            f = H2.hash_to_field_FQ2 if inp["fq2"] else H2.hash_to_field_FQ
-            m = 2 if inp["fq2"] else 1
-            runs = [(inp["h"], inp["count"])] if k == "htf" else [(h, 2) for h in inp["hs"]]
-            for h, count in runs:
+            if k == "htf_pair":
+                runs = [(inp["h"], inp["count"], fq2) for fq2 in inp["order"]]
+            elif k == "htf":
+                runs = [(inp["h"], inp["count"], inp["fq2"])]
+            else:
+                runs = [(h, 2, inp["fq2"]) for h in inp["hs"]]
+            for h, count, fq2 in runs:
+                f = H2.hash_to_field_FQ2 if fq2 else H2.hash_to_field_FQ
+                m = 2 if fq2 else 1
                 H = getattr(hashlib, h)
                 got = _outcome(f, bx(inp["msg"]), count, bx(inp["dst"]), H)
                 try:
